@@ -29,6 +29,7 @@ type Pkg struct {
 	schema    *ytypes.Schema
 	enumTypes []reflect.Type
 	atoms     []*Atom
+	exposed   []*Atom
 	atomsOnce sync.Once
 }
 
